@@ -48,26 +48,26 @@ PROPS = {
     # fit line segments: 0 proto, 1 cost, 2 pred, 3 assigned label, 4 true label, 5 order, 6 drained, 7 predictions, 8 relevant
     "C01": {"modules": [P + "C01", P + "C01Exec", P + "C01Refine", P + "C01Gen"], "streams": ["fit", "learn"], "min_classes": 2,
             "relevant": {"fit": [1, 2, 3, 5, 6], "lawfit": None}},
-    "C02": {"modules": [P + "C02", P + "C02Exec", P + "C02Weight", P + "C02WeightGraph", P + "C02Refine", P + "C02Gen"], "streams": ["prim", "fit", "semi"],
+    "C02": {"modules": [P + "C02", P + "C02Exec", P + "C02Weight", P + "C02WeightGraph", P + "C02Refine", P + "C02Gen"], "streams": ["prim", "fit", "semi", "learn"],
             "relevant": {"prim": None, "lawprim": None, "fit": [0]}},
     "C03": {"modules": [P + "C03", P + "C03Fit", P + "C03Refine", P + "C03Gen"], "streams": ["fit", "semi"], "relevant": {"predict": [0]}},
     "C04": {"modules": [P + "C04", P + "C13", P + "C13Refine", P + "C13Gen"], "streams": ["fit", "cluster", "select"],
             "relevant": {"fit": [3], "cluster": [4]}},
     "C05": {"modules": [P + "C05", P + "C05Refine", P + "C05Gen"], "streams": ["heap"]},
-    "C06": {"modules": [P + "C06", P + "C06b", P + "C06Models"], "streams": ["dist"]},
+    "C06": {"modules": [P + "C06", P + "C06b", P + "C06Models"], "streams": ["dist", "persist", "precomp"]},
     "C07": {"modules": [P + "C07"], "streams": ["dist", "fit", "select", "knn", "precomp", "stream", "measures"], "relevant": {"dist": None}},
     "C09": {"modules": [P + "C09", P + "C03Refine", P + "C03Gen", P + "C14Refine", P + "C14Gen"], "streams": ["fit", "semi", "knnpred"], "relevant": {"predict": [0], "knnq": None}},
-    "C15": {"modules": [P + "C15", P + "C15Refine", P + "C15Gen"], "streams": ["semi"], "min_classes": 2, "relevant": {"fit": [0, 1, 2, 3, 4, 5, 6], "lawfit": None}},
+    "C15": {"modules": [P + "C15", P + "C15Refine", P + "C15Gen"], "streams": ["semi", "precomp"], "min_classes": 2, "relevant": {"fit": [0, 1, 2, 3, 4, 5, 6], "lawfit": None}},
     "C16": {"modules": [P + "C16", P + "C16Cut", P + "C16Pipeline", P + "C16Refine"], "streams": ["select"], "relevant": {"selmax": None, "selcut": None, "ncut": None, "unsfit": None, "knnfit": None}},
     "C10": {"modules": [P + "C10"], "streams": ["precomp", "fit"], "relevant": {"fit": [0, 1, 2, 3, 5], "predict": [0]}},
     "C11": {"modules": [P + "C11Map", P + "C11Family", P + "C11Perm", P + "C11Registry"], "streams": ["c11", "fit"], "relevant": {"fit": [0, 1, 2, 3, 5], "predict": [0]}},
-    "C17": {"modules": [P + "C17", P + "C17Iter", P + "C17Refine", P + "C17Gen"], "streams": ["learn", "fit"], "relevant": {"swap": None, "best": None, "prune": None, "iters": None, "predict": [1]}},
+    "C17": {"modules": [P + "C17", P + "C17Iter", P + "C17Refine", P + "C17Gen"], "streams": ["learn", "fit", "measures"], "relevant": {"swap": None, "best": None, "prune": None, "iters": None, "predict": [1]}},
     "C18": {"modules": [P + "C18"], "streams": ["stream"]},
     "C19": {"modules": [P + "C19"], "streams": ["persist"]},
     "C20": {"modules": [P + "C20"], "streams": ["measures"]},
     "C12": {"modules": [P + "C12Arcs", P + "C12Pdf", P + "C12Refine", P + "C12PdfRefine", P + "C12Gen"], "streams": ["knn"]},
-    "C13": {"modules": [P + "C13", P + "C13Rel", P + "C13Refine", P + "C13Gen"], "streams": ["cluster"]},
-    "C14": {"modules": [P + "C14", P + "C12Pdf", P + "C14Refine", P + "C14Gen"], "streams": ["knnpred"]},
+    "C13": {"modules": [P + "C13", P + "C13Rel", P + "C13Refine", P + "C13Gen"], "streams": ["cluster", "select"]},
+    "C14": {"modules": [P + "C14", P + "C12Pdf", P + "C14Refine", P + "C14Gen"], "streams": ["knnpred", "persist"]},
     "C08": {"modules": [P + "C08", P + "C08Symm", P + "C08Self", P + "C08Metric", P + "C08Nonneg", P + "C08Defined"], "streams": ["dist"]},
 }
 
